@@ -525,6 +525,23 @@ def probes(ctx, a, hist, where):
         if CALLS != want:
             ctx.violation({**sig, 'clause': 'contract used inside a called function iff active', 'registry': 'contracts'},
                           f'history {hist}: {cid!r} active as {a["contracts"].get(cid)}, calls {CALLS}')
+        lb = lambda b: len(b).to_bytes(2, 'big') + b
+        fail = op('FALSE') + op('VERIFY')
+        for cname, scripts_ in (('EXCEPT', [op('TRY_EXCEPT') + lb(fail) + lb(inv) + op('TRUE')]),
+                                ('IF', [op('TRUE') + op('IF') + lb(inv) + op('TRUE')]),
+                                ('ELSE', [op('FALSE') + op('IF_ELSE') + lb(b'') + lb(inv) + op('TRUE')]),
+                                ('LOOP', [op('TRUE') + op('LOOP') + lb(op('POP0') + inv + op('FALSE')) + op('TRUE')]),
+                                ('EVAL in script 2', [op('TRUE') + op('POP0'), P(inv) + op('EVAL') + op('TRUE')]),
+                                ('EXCEPT inside a function', [op('DEF') + b'\x00' + lb(op('TRY_EXCEPT') + lb(fail) + lb(inv)) + op('CALL') + b'\x00' + op('TRUE')])):
+            CALLS.clear()
+            try:
+                F.run_auth_scripts(list(scripts_))
+            except BaseException as e:
+                ctx.violation({**sig, 'clause': 'probe run failed'}, f'history {hist}: {cname}: {e!r}')
+            ctx.ran()
+            if CALLS != want:
+                ctx.violation({**sig, 'clause': 'contract used inside nested bodies iff active', 'registry': 'contracts', 'inside': cname.split(' ')[0]},
+                              f'history {hist}: {cid!r} active as {a["contracts"].get(cid)}, inside {cname}: calls {CALLS}')
     # aliases compile iff active
     for al, target in ALIAS_TARGET.items():
         try:
